@@ -521,6 +521,21 @@ func (ci *corrInfo) trackPhis(f *ssa.Function) {
 		ci.tphiBlocks[p.Block()] = append(ci.tphiBlocks[p.Block()], len(ci.tphis))
 		ci.tphis = append(ci.tphis, p)
 	}
+	// while there is room: joins of values that can be nil (an error assigned per case and returned below the cases) — which
+	// incoming value such a join holds on a path is what valuesAlong and the nil-ness of carried values are asked about
+	for _, p := range order {
+		if keep[p] || len(ci.tphis) >= corrMaxPhis {
+			continue
+		}
+		switch p.Type().Underlying().(type) {
+		case *types.Interface, *types.Pointer:
+		default:
+			continue
+		}
+		ci.tphiIdx[p] = len(ci.tphis)
+		ci.tphiBlocks[p.Block()] = append(ci.tphiBlocks[p.Block()], len(ci.tphis))
+		ci.tphis = append(ci.tphis, p)
+	}
 	// a tracked phi can also carry a value that some branch tested against nil (`err = pingErr` below `if pingErr != nil`):
 	// the outcome of that test is remembered along the path like a condition tested twice
 	ci.valClass = map[ssa.Value]int{}
